@@ -483,6 +483,7 @@ func (b *Bridge) after(in *hub.Instance, g *bridgeGhost, op engine.Op, pre *view
 				st.Count("expiry_refunds", 1)
 			default:
 				b.v(st, "C04", "transfer_disappeared", op.Kind, "%s was at %s and is now nowhere (no execution event, no refund)", k, was)
+				b.v(st, "C12", "transfer_removed_without_refund", op.Kind, "%s was at %s and has been removed: neither executed nor cancelled nor expired, and nothing was returned to %s", k, was, x.OriginAddr)
 				x.Where = "refunded"
 			}
 			continue
@@ -529,9 +530,7 @@ func (b *Bridge) after(in *hub.Instance, g *bridgeGhost, op engine.Op, pre *view
 		if stt == mhubtypes.TX_STATUS_REFUNDED {
 			g.RefundedHash[x.TxHash] = true
 		}
-		if perHash[x.TxHash] > 1 {
-			continue // several transfers of one transaction share one status: only finality can be demanded
-		}
+		shared := perHash[x.TxHash] > 1 // several transfers of one transaction share ONE status record (it is keyed by the tx hash)
 		ok := true
 		switch {
 		case x.Where == "executed":
@@ -543,7 +542,9 @@ func (b *Bridge) after(in *hub.Instance, g *bridgeGhost, op engine.Op, pre *view
 		default:
 			ok = stt == mhubtypes.TX_STATUS_BATCH_CREATED
 		}
-		if !ok {
+		if !ok && shared {
+			b.v(st, "C04", "status_disagrees_with_location", "SetTxStatus(transfers sharing one transaction hash)", "%s is %s but the status reported for its transaction %s is %s (the transaction carried %d transfers)", k, x.Where, x.TxHash[:8], stt, perHash[x.TxHash])
+		} else if !ok {
 			b.v(st, "C04", "status_disagrees_with_location", "SetTxStatus", "%s is %s but status is %s", k, x.Where, stt)
 		}
 	}
